@@ -6,7 +6,7 @@ SEED="$1"; NAME=$(echo "$SEED" | tr '/' '_')
 WT=/tmp/verify_wt/$NAME
 mkdir -p /tmp/verify_wt; rm -rf "$WT"
 git -C /repo worktree add -q --detach "$WT" HEAD || exit 2
-cd "$WT"
+cd "$WT"; export AUTOCARVER_ROOT="$WT"
 PYTHONPATH=$WT timeout 300 /venv/bin/python "$SEED/demo.py" > "$SEED/verify_clean.log" 2>&1; RC_CLEAN=$?
 git apply "$SEED/patch.diff" || { echo "patch does not apply"; git -C /repo worktree remove --force "$WT"; exit 2; }
 PYTHONPATH=$WT timeout 300 /venv/bin/python "$SEED/demo.py" > "$SEED/verify_patched.log" 2>&1; RC_PATCHED=$?
